@@ -66,6 +66,17 @@ def _check_backward(prog, out_names, in_names, astar, old, v_after_names=None):
     return alts, untouched
 
 
+def _run_and_finish(sp, prog, spec, outs, ins, astar, old, extra, call):
+    """the call under analysis has valid arguments: an ordinary exception is a failed obligation"""
+    def cex(model):
+        return dict(kind="autojac_backward", spec=spec_json(spec), outputs=outs, inputs=ins, jac=jac_values(model, prog),
+                    v=[], old={k: (cex_values(model, g=g)["g"] if g is not None else None) for k, g in old.items()}, **extra)
+    _, failed = valid_call(call, cex, "backward_on_valid_arguments_succeeds")
+    if failed:
+        return failed
+    return _finish(sp, prog, spec, outs, ins, astar, old, extra)
+
+
 def _finish(sp, prog, spec, outs, ins, astar, old, extra):
     alts, untouched = _check_backward(prog, outs, ins, astar, old)
     def cex(model):
@@ -103,8 +114,8 @@ def case_layout(sp, tier):
     k = ks[choice(len(ks), "chunk")]
     old = {"a": None, "b": set_grad(prog["b"], "b")}
     A = AStar()
-    backward([prog[n] for n in outs], A, inputs=[prog[n] for n in ins], parallel_chunk_size=k)
-    return _finish(sp, prog, spec, outs, ins, A, old, dict(chunk=k, hash_order=horder))
+    return _run_and_finish(sp, prog, spec, outs, ins, A, old, dict(chunk=k, hash_order=horder),
+                           lambda: backward([prog[n] for n in outs], A, inputs=[prog[n] for n in ins], parallel_chunk_size=k))
 
 
 SUBSETS3 = [s for r in (1, 2, 3) for s in itertools.combinations(range(3), r)]
@@ -143,8 +154,8 @@ def case_graph(sp, tier):
     if c_rg:
         old["c"] = set_grad(prog["c"], "c")
     A = AStar()
-    backward([prog[n] for n in outs], A, inputs=[prog[n] for n in ins], parallel_chunk_size=k)
-    return _finish(sp, prog, spec, outs, ins, A, old, dict(chunk=k, hash_order=list(hp)))
+    return _run_and_finish(sp, prog, spec, outs, ins, A, old, dict(chunk=k, hash_order=list(hp)),
+                           lambda: backward([prog[n] for n in outs], A, inputs=[prog[n] for n in ins], parallel_chunk_size=k))
 
 
 def case_multi(sp, tier):
@@ -164,8 +175,8 @@ def case_multi(sp, tier):
     k = ks[choice(len(ks), "chunk")]
     old = {"a": set_grad(prog["a"], "a"), "b": None}
     A = AStar()
-    backward([prog[n] for n in outs], A, inputs=[prog["a"], prog["b"]], parallel_chunk_size=k)
-    return _finish(sp, prog, spec, outs, ["a", "b"], A, old, dict(chunk=k, hash_order=horder))
+    return _run_and_finish(sp, prog, spec, outs, ["a", "b"], A, old, dict(chunk=k, hash_order=horder),
+                           lambda: backward([prog[n] for n in outs], A, inputs=[prog["a"], prog["b"]], parallel_chunk_size=k))
 
 
 def as_container(items, kind):
